@@ -118,15 +118,23 @@ Definition get_op (s : sx) : option op :=
 Definition sx_srec (s : srec) : sx :=
   SL [sx_outcome (rv (s_res s)); sx_of_list sx_event (s_events s); sx_world (s_after s)].
 
+Definition run_one (c : cfg) (w : world) (ops : list op) : sx :=
+  let recs := run c w ops in
+  let wf := final c w ops in
+  SL (map sx_srec recs
+      ++ [sx_of_list (fun r => SL [SI (fst r); sx_msg (snd r)]) (j_out (jr wf))]).
+
+(* [cfg, world, ops] one history;  [1, cfg, world, [ops, ...]] several histories from the same start *)
 Definition run_req (req : sx) : sx :=
   match req with
   | SL [c; w; ops] =>
       match get_cfg c, get_world w, get_list get_op ops with
-      | Some c, Some w, Some ops =>
-          let recs := run c w ops in
-          let wf := final c w ops in
-          SL (map sx_srec recs
-              ++ [sx_of_list (fun r => SL [SI (fst r); sx_msg (snd r)]) (j_out (jr wf))])
+      | Some c, Some w, Some ops => run_one c w ops
+      | _, _, _ => err_sx 1
+      end
+  | SL [SI 1; c; w; hs] =>
+      match get_cfg c, get_world w, get_list (get_list get_op) hs with
+      | Some c, Some w, Some hs => SL (map (run_one c w) hs)
       | _, _, _ => err_sx 1
       end
   | _ => err_sx 2
